@@ -3,6 +3,7 @@ package main
 import (
 	"fmt"
 	"go/token"
+	"go/types"
 
 	"golang.org/x/tools/go/ssa"
 )
@@ -26,7 +27,24 @@ func init() {
 func runC02(w *World, r *Report) {
 	dagT := w.Named("compose", "dagChannel")
 	get := methodOf(w, dagT, "get")
-	fSkipped := w.Field("compose", "dagChannel", "Skipped")
+	// the skip flag: located by type and role (the only bool field of dagChannel), so that a rename is reported by a
+	// rule instead of breaking the anchor
+	var fSkipped *types.Var
+	{
+		st := dagT.Underlying().(*types.Struct)
+		for i := 0; i < st.NumFields(); i++ {
+			if b, ok := st.Field(i).Type().Underlying().(*types.Basic); ok && b.Kind() == types.Bool {
+				fSkipped = st.Field(i)
+			}
+		}
+		if fSkipped == nil {
+			undecidedf("C02: dagChannel has no bool field (skip flag)")
+		}
+	}
+	r.Rule("C02.skip-survives", "the skip flag of a DAG channel is part of what a checkpoint keeps (exported field): a skipped node stays skipped after a resume", 1)
+	r.Check(fSkipped.Exported(), "C02.skip-survives", "dagChannel."+fSkipped.Name()+" is exported", fSkipped.Pos(), "persisted by the byte store", "the skip flag is an unexported field: the serializer drops it, so after an interrupt + resume the channels that were marked skipped are ready again — branch-skipped nodes and their successors execute with zero input")
+	r.Rule("C02.ready-poll-all", "every channel is asked for readiness in every round (a DAG channel also becomes ready through a skip report, without being written to) — shared with C03", 1)
+	pollAllCheck(w, r, "C02.ready-poll-all")
 	fCP := w.Field("compose", "dagChannel", "ControlPredecessors")
 	fDP := w.Field("compose", "dagChannel", "DataPredecessors")
 
